@@ -1,4 +1,6 @@
 """C06 - filter_, stop and maxlevel restrict all iterators in the same, compositional way."""
+import sys
+
 from hypothesis import strategies as st
 
 from anytree import LevelOrderGroupIter, LevelOrderIter, PostOrderIter, PreOrderIter, ZigZagGroupIter
@@ -68,7 +70,28 @@ def check_very_deep(case, acc):
     acc.nontrivial(True)
 
 
+def check_deep(case, acc):
+    """All five iterators with restrictions on a trunk of 0.6 x the interpreter's recursion limit with a small crown on top
+    (the depth-first iterators descend recursively in the library, about one frame per level)."""
+    make = nodes.factory(case["cls"])
+    depth = int(0.6 * sys.getrecursionlimit())
+    trunk = [make(0)]
+    for i in range(1, depth):
+        node = make(i)
+        node.parent = trunk[-1]
+        trunk.append(node)
+    crown = forest.build_tree([[[], []], [[]], []], lambda i: make(depth + i))
+    crown[0].parent = trunk[-1]
+    tree = trunk + crown
+    labels = forest.Labels(tree)
+    for start, stop, hide, maxlevel in ((0, [], [], None), (0, [depth + 1], [3, depth], None), (5, [], [depth - 1], depth - 3), (depth - 10, [depth + 2], [], 12)):
+        _once({"start": start, "stop": stop, "hide": hide, "maxlevel": maxlevel, "none_when_empty": True, "truth": start, "boom": 3}, acc, tree, labels)
+    acc.tag("deep_trunk_cases")
+
+
 def check_case(case, acc):
+    if case.get("kind") == "deep":
+        return check_deep(case, acc)
     if case.get("kind") == "very-deep":
         return check_very_deep(case, acc)
     if case.get("mutations"):
@@ -247,7 +270,7 @@ def _enum_cases(max_nodes, index, count, min_nodes=1, root_only=False):
             for idx in sub[1:]:
                 depth[idx] = depth[parents[idx]] + 1
             height = max(depth.values())
-            maxlevels = [None, -1] + list(range(0, height + 3))
+            maxlevels = [None, -1] + list(range(0, height + 3)) + [(True, 2 ** 63, 10 ** 30)[k % 3]]
             variant = 0
             for stop in shapes.subsets(sub):
                 for hide in shapes.subsets(sub):
@@ -273,7 +296,7 @@ def random_cases(draw):
     start = draw(st.one_of(st.just(0), st.just(0), st.integers(0, size - 1)))
     stop = draw(strategies.subsets_of(size, max_size=4))
     hide = draw(strategies.subsets_of(size))
-    maxlevel = draw(st.one_of(st.none(), st.integers(-1, 8)))
+    maxlevel = draw(st.one_of(st.none(), st.integers(-1, 8), st.integers(-1, 8), st.sampled_from([True, 2 ** 31, 2 ** 63 - 1, 2 ** 63, 2 ** 64, 10 ** 30])))
     return {
         "shape": shape,
         "start": start,
@@ -300,12 +323,13 @@ def plan(tier, seed):
         tasks += [{"engine": "enum", "max_nodes": 7, "min_nodes": 7, "root_only": True, "index": i, "count": 132} for i in range(132)]
     tasks += [{"engine": "hyp", "examples": examples, "seed": seed * 1000 + i} for i in range(nshards)]
     tasks += [{"engine": "very-deep", "cls": c} for c in ("Node", "SlotLM")]
+    tasks += [{"engine": "deep", "cls": c} for c in ("Node", "SlotLM")]
     return tasks
 
 
 def run_task(task, acc):
-    if task["engine"] == "very-deep":
-        case = {"kind": "very-deep", "cls": task["cls"]}
+    if task["engine"] in ("very-deep", "deep"):
+        case = {"kind": task["engine"], "cls": task["cls"]}
         exc = acc.evaluate(check_case, case, enumerated=False)
         if exc is not None:
             acc.add_violation(case, exc)
